@@ -113,6 +113,7 @@ class Kernel(object):
         self._mon_tool = None
         self.stopping = False
         self.single_preempt_at = None     # force exactly one preemption at this line-event index
+        self.sleep_interrupt = None       # callable(task, caller module name) -> exception to raise out of time.sleep() or None
         self.line_hot = None              # {function name: pre-emption probability per line} overriding the default
         self.time = SimTime(self)
         CURRENT[0] = self
@@ -696,7 +697,13 @@ class SimTimeModule(object):
     def sleep(self, s):
         if s < 0:
             raise ValueError("sleep length must be non-negative")       # as the real time.sleep()
-        K().time.sleep(s)
+        k = K()
+        k.time.sleep(s)
+        if k.sleep_interrupt is not None and k.cur() is not None:
+            # a signal handler that raises (Ctrl-C in the main thread) ends the sleep with that exception
+            exc = k.sleep_interrupt(k.cur(), sys._getframe(1).f_globals.get("__name__", ""))
+            if exc is not None:
+                raise exc
 
     def strftime(self, *a):
         return "simtime"
